@@ -9,7 +9,10 @@ package c06
 import (
 	"context"
 	"encoding/hex"
+	"encoding/json"
 	"fmt"
+	"io"
+	"os"
 	"strings"
 	"testing"
 	"time"
@@ -24,6 +27,7 @@ import (
 	standardsigner "github.com/attestantio/vouch/services/signer/standard"
 	"github.com/prysmaticlabs/go-bitfield"
 	"github.com/rs/zerolog"
+	zerologger "github.com/rs/zerolog/log"
 	e2types "github.com/wealdtech/go-eth2-types/v2"
 	e2wtypes "github.com/wealdtech/go-eth2-wallet-types/v2"
 
@@ -199,12 +203,12 @@ func specRoots(in Input) []chunk {
 	return out
 }
 
-func runInput(t *testing.T, in Input) Observed {
+func runInput(t *testing.T, in Input, level zerolog.Level) Observed {
 	initBLS()
 	ctx := context.Background()
 	dp := &domainProvider{chain: in.Chain, fail: in.DomFail}
 	svc, err := standardsigner.New(ctx,
-		standardsigner.WithLogLevel(zerolog.Disabled),
+		standardsigner.WithLogLevel(level),
 		standardsigner.WithMonitor(nullmetrics.New()),
 		standardsigner.WithClientMonitor(nullmetrics.New()),
 		standardsigner.WithSpecProvider(specProvider{in}),
@@ -457,9 +461,20 @@ func TestC06(t *testing.T) {
 	for i := 0; i < n; i++ {
 		ins = append(ins, gen(rng.Fork(), i))
 	}
-	for _, in := range ins {
+	// the property must not depend on the log level (SignBeaconAttestations has trace-only code):
+	// in the thorough tier every other case runs at trace level (output discarded)
+	trace := os.Getenv("VERIF_TIER") == "thorough"
+	if trace {
+		zerologger.Logger = zerologger.Output(io.Discard)
+	}
+	for k, in := range ins {
 		in.Tags = append(in.Tags, derivedTags(in)...)
-		obs := runInput(t, in)
+		level := zerolog.Disabled
+		if trace && k%2 == 1 {
+			level = zerolog.TraceLevel
+			col.Count("log-level:trace")
+		}
+		obs := runInput(t, in, level)
 		col.Count("kind:" + in.Kind)
 		col.Count("outcome:" + in.Kind + ":" + obs.Outcome)
 		for _, tg := range in.Tags {
@@ -473,7 +488,8 @@ func TestC06(t *testing.T) {
 		}
 		col.Count(fmt.Sprintf("batch-size:%d", min(len(in.Batch), 9)))
 		id := col.NextID()
-		col.Add(Case{Term: term(id, in, obs), Nontrivial: obs.Outcome == "ok" && nonzero > 0, Tags: in.Tags,
+		key, _ := json.Marshal(in)
+		col.Add(Case{Term: term(id, in, obs), Key: string(key), Nontrivial: obs.Outcome == "ok" && nonzero > 0, Tags: in.Tags,
 			Sample: map[string]any{"input": in, "observed": obs}})
 	}
 	if err := col.Flush(); err != nil {
